@@ -587,7 +587,7 @@ def run(ctx, out):
     comp = dict(out.coverage)
     dcheck.run_property(ctx, out, "C10", None, n_quick=150, n_thorough=2500,
                         gen_kw=dict(ws_share=0.4, batches=0.1, malformed=0.03, victims=2, faults=True, timers=True),
-                        directed=directed.full_buffer_request() + directed.faulty_caller() + directed.faulty_caller_batched() + directed.write_error_after_progress())
+                        directed=directed.full_buffer_request() + directed.faulty_caller() + directed.faulty_caller_batched() + directed.write_error_after_progress() + directed.requester_backpressure())
     for k in list(out.coverage):
         if k not in comp or out.coverage[k] != comp[k]:
             out.coverage["daemon_" + k] = out.coverage[k]
